@@ -14,6 +14,11 @@ func (e *Engine) captureCall(s *State, c *ssa.CallCommon, in ssa.Instruction) de
 	d.fn = e.val(s, c.Value)
 	for _, a := range c.Args {
 		d.args = append(d.args, e.val(s, a))
+		d.argTypes = append(d.argTypes, a.Type())
+	}
+	e.curArgTypes = d.argTypes
+	if c.IsInvoke() {
+		e.curArgTypes = append([]types.Type{c.Value.Type()}, d.argTypes...)
 	}
 	return d
 }
@@ -99,6 +104,10 @@ func calleeKeyExternal(fn *ssa.Function) string {
 // doCall performs a call on state s; it may fork (inlining) and may end the path.
 func (e *Engine) doCall(s *State, d deferred, in ssa.Instruction) []callOut {
 	c := d.call
+	e.curArgTypes = d.argTypes
+	if c.IsInvoke() {
+		e.curArgTypes = append([]types.Type{c.Value.Type()}, d.argTypes...)
+	}
 	sig := c.Signature()
 	var resT types.Type = sig.Results()
 	if sig.Results().Len() == 1 {
@@ -277,14 +286,22 @@ func (e *Engine) snapEntry(s *State, fn *ssa.Function, args []*Val, depth int) {
 // unknownCall: a callee without contract, spec or body. Results are unconstrained, the whole heap is
 // havocked, and the callee is assumed not to panic. Each such callee is listed in the evidence.
 func (e *Engine) unknownCall(s *State, key string, resT types.Type, args []*Val, in ssa.Instruction) *Val {
+	if callee := e.P.Funcs[key]; callee != nil && e.P.SameSCC(e.Fn, callee) {
+		e.structural(e.oblName(s, in, "callee-pre")+"/rec-decreases", "decreases", in.Pos(), "recursive call to "+key+" decreases the measure", false, "recursive call to a function without contract/decreases clause")
+	}
 	e.note("uncontracted callee " + key + ": results unconstrained, heap havocked, assumed panic-free")
-	e.event(s, Event{Kind: "call", What: key, Args: args, Pos: e.P.Pos(in.Pos()), Instr: in, Extra: map[string]string{"unknown": "1"}})
+	e.event(s, Event{Kind: "call", What: key, Args: args, ArgTypes: e.argTypesFor(args), Pos: e.P.Pos(in.Pos()), Instr: in, Extra: map[string]string{"unknown": "1"}})
 	for _, a := range args {
 		e.escape(s, nil, a)
 	}
 	e.havocAll(s)
 	r := e.havocVal(s, resT, "ret")
 	e.assumeAllocatedVal(s, resT, r)
+	if r.Tup != nil {
+		s.Trace[len(s.Trace)-1].Rets = r.Tup
+	} else {
+		s.Trace[len(s.Trace)-1].Rets = []*Val{r}
+	}
 	return r
 }
 
@@ -338,6 +355,19 @@ func (e *Engine) applyContract(s *State, ct *Contract, fn *ssa.Function, sig *ty
 			e.note("object invariant of " + rk + " assumed for the receiver at calls from outside the type (visible-state semantics; encapsulation checked by the typeinv-encapsulation analysis)")
 		}
 	}
+	// recursion: the callee's measure at the call is below the caller's measure at entry
+	if fn != nil && s.top().Depth == 0 && e.P.SameSCC(e.Fn, fn) {
+		name := fmt.Sprintf("%s/rec-decreases#%d", base, ord)
+		switch {
+		case ct.Decreases == nil:
+			e.structural(name, "decreases", in.Pos(), "recursive call to "+key+" decreases the measure", false, "callee on the same call-graph cycle has no decreases clause")
+		case e.entryMeasure == "":
+			e.structural(name, "decreases", in.Pos(), "recursive call to "+key+" decreases the measure", false, "caller has no decreases clause")
+		default:
+			m := e.evalTerm(s, ctx, ct.Decreases.Expr)
+			e.assert(s, name, "decreases", in.Pos(), "recursive call to "+key+": measure "+ct.Decreases.Text+" decreases and is bounded below", and(app(">=", e.entryMeasure, "0"), app("<", m, e.entryMeasure)))
+		}
+	}
 	for k, rq := range ct.Requires {
 		t := e.evalBool(s, ctx, rq.Expr)
 		e.assert(s, fmt.Sprintf("%s/callee-pre#%d.%d", base, ord, k), "callee-pre", in.Pos(), "precondition of "+key+": "+rq.Text, t)
@@ -348,7 +378,7 @@ func (e *Engine) applyContract(s *State, ct *Contract, fn *ssa.Function, sig *ty
 		old[k] = v
 	}
 	ctx.OldHeap = old
-	e.event(s, Event{Kind: "call", What: key, Args: args, Pos: e.P.Pos(in.Pos()), Instr: in, Extra: map[string]string{"contract": "1", "blocking": ct.Flags["blocking"]}})
+	e.event(s, Event{Kind: "call", What: key, Args: args, ArgTypes: e.argTypesFor(args), Pos: e.P.Pos(in.Pos()), Instr: in, Extra: map[string]string{"contract": "1", "blocking": ct.Flags["blocking"]}})
 	for _, a := range args {
 		e.escape(s, nil, a)
 	}
@@ -370,9 +400,18 @@ func (e *Engine) applyContract(s *State, ct *Contract, fn *ssa.Function, sig *ty
 	if ctx.Results == nil {
 		ctx.Results = []*Val{}
 	}
+	for i := len(s.Trace) - 1; i >= 0; i-- {
+		if s.Trace[i].Instr == in && s.Trace[i].Kind == "call" {
+			s.Trace[i].Rets = rvals
+			s.Trace[i].RetTypes = ctx.RTypes
+			break
+		}
+	}
 	e.applyModifies(s, ct, ctx, true)
 	for _, en := range ct.Ensures {
-		s.assume(e.evalBool(s, ctx, en.Expr))
+		if t, ok := e.tryEvalBool(s, ctx, en.Expr); ok {
+			s.assume(t)
+		}
 	}
 	switch len(rvals) {
 	case 0:
@@ -758,4 +797,12 @@ func (e *Engine) insideType(typeKey string) bool {
 		return true
 	}
 	return false
+}
+
+// argTypesFor returns the static types of the arguments of the call being executed (when known).
+func (e *Engine) argTypesFor(args []*Val) []types.Type {
+	if len(e.curArgTypes) == len(args) {
+		return e.curArgTypes
+	}
+	return nil
 }
